@@ -269,6 +269,11 @@ struct WorldT : IWorld
     r.set("order", (lt == blt && gt == bgt) ? "as-base" : "differs-from-base");
     r.set("antisym", !(lt && gt));
     r.set("consistent", eq != ne);
+    if (!x.ptr && !y.ptr) {  // two empty handles: the specification constrains nothing but the consistency of == and !=
+      Json c = Json::object();
+      c.set("consistent", eq != ne);
+      return c;
+    }
     return r;
   }
   template <class HX>
